@@ -8,6 +8,8 @@
          -> "spec 1" | "spec 0"       (spec_construct_b on the tables the IMPLEMENTATION returned)
      P <npe|lltsa|lpp> N D  X[D*N]  nnz (r c v)*  ndv dv*
          -> "ref <A D*D> <B D*D>"     (the pencil the property names)
+     J N D d  X[D*N, feature major]  P[D*d, row major]
+         -> "ok <mean D> <Y N*d row major>"   (compute_mean, project)   |  "oob site index size"
    Anything malformed: "err <what>". *)
 open C10_model
 
@@ -70,6 +72,21 @@ let () =
            let next_int () = int_of_string (next ()) in
            let next_q () = qc_of_token (next ()) in
            let cmd = w.(0) in
+           if cmd = "J" then begin
+             let n = next_int () in
+             let d0 = next_int () in
+             let dd = next_int () in
+             if n < 0 || d0 < 0 || dd < 0 || n > 4096 || d0 > 512 || dd > 512 then failwith "bad size";
+             let xl = List.init d0 (fun _ -> List.init n (fun _ -> next_q ())) in
+             let pl = List.init d0 (fun _ -> List.init dd (fun _ -> next_q ())) in
+             (match run_project_qc (nat_of_int n) (nat_of_int d0) (nat_of_int dd) xl pl with
+              | Ok (m, y) ->
+                let buf = Buffer.create 1024 in
+                List.iter (fun x -> Buffer.add_char buf ' '; Buffer.add_string buf (token_of_qc x)) m;
+                List.iter (List.iter (fun x -> Buffer.add_char buf ' '; Buffer.add_string buf (token_of_qc x))) y;
+                print_string ("ok" ^ Buffer.contents buf ^ "\n")
+              | OOB (s, i, z) -> Printf.printf "oob %d %d %d\n" (int_of_nat s) (int_of_nat i) (int_of_nat z))
+           end else
            let variant = if cmd = "K" then (match next_int () with 0 -> VShipped | 1 -> VF9 | 2 -> VF25 | 3 -> VF42 | _ -> failwith "bad variant") else VF42 in
            let m = meth (next ()) in
            let n = next_int () in
